@@ -1841,6 +1841,9 @@ func handleClientMessage(c *webClient, m clientMessage) error {
 			if err != nil {
 				return terror("error", err.Error())
 			}
+			if old.Group != c.group.Name() {
+				return terror("not-authorised", "not authorised")
+			}
 			t := old.Clone()
 			if tok.Expires != nil {
 				t.Expires = tok.Expires
